@@ -9,6 +9,7 @@ from engine import pat
 from engine.util import own_nodes, calls_with_nodes, where, with_exprs
 
 RULES = {
+    "R-08.10": "signing does not grow the record: dns.tsig.sign derives the signed TSIG from the template only by `.replace(time_signed=..., mac=...)` - the MAC has the reserved size, and no other variable-length field (other data) is added at signing time, after the reserve and the padding were computed",
     "R-08.9": "the size reserved for the TSIG is the size that is written: dns.tsig.mac_sizes agrees with the digest (or truncation) size of every algorithm (C14 R-14.3 adopted) - the placeholder MAC behind the reserve is sized from that table",
     "R-08.8": "the sizes reserved before rendering are those of what is rendered: the placeholder MAC of use_tsig has the size of the algorithm the TSIG template names (one expression for both), and make_response hands the requester's advertised payload (query.payload) to use_edns as request_payload - the default limit of the response",
     "R-08.7": "room for the padding octets themselves: either the renderer bounds the padding it adds by the space left under the limit, or the reserve made before the sections are rendered grows with the block size - otherwise a truncated message plus its padding can exceed the limit and TooBig escapes although truncation was preferred",
@@ -279,6 +280,12 @@ def run(model, rep, tier):
     t = " ".join(src(wt.node).split())
     rep.check("self.counts[ADDITIONAL] += 1 with self._temporarily_seek_to(10): self.output.write(struct.pack('!H', self.counts[ADDITIONAL]))" in t, "R-08.5", wt.qualname, where(wt, wt.node),
               "ARCOUNT is incremented and back-patched at offset 10", "ARCOUNT back-patch changed", stmt="arcount-patch")
+    sg10 = model.func("dns.tsig.sign")
+    reps10 = [c for c in ast.walk(sg10.node) if isinstance(c, ast.Call) and isinstance(c.func, ast.Attribute) and c.func.attr == "replace"]
+    bad10 = [c for c in reps10 if {k.arg for k in c.keywords} - {"time_signed", "mac"}]
+    rep.check(bool(reps10) and not bad10, "R-08.10", sg10.qualname, where(sg10, bad10[0] if bad10 else sg10.node), "sign() changes only time_signed and mac of the template",
+              f"`{src(bad10[0])[:70]}` changes {sorted({k.arg for k in bad10[0].keywords} - {'time_signed', 'mac'})} at signing time: the TSIG written is larger than the placeholder the reserve and the padding were "
+              "computed from (the padded length is off; TooBig escapes near the limit)" if bad10 else "no `.replace(time_signed=..., mac=...)` found in sign()", stmt="sign-keeps-size")
     rep.share(model, "C14", {"R-14.3"}, "R-08.9", "Message.use_tsig sizes the placeholder MAC with dns.tsig.mac_sizes[algorithm]; _compute_tsig_reserve renders that placeholder")
     rep.meta["explanation"] = (
         "Lexical with-context check for size tracking, dominance rules on _track_size/_rollback and on the ordering of reserve/sections/release/OPT/header/TSIG in Message.to_wire, "
@@ -286,6 +293,9 @@ def run(model, rep, tier):
 
 
 WITNESSES = [
+    {"id": "c08-sign-adds-other-data", "rule": "R-08.10", "file": "dns/tsig.py", "expect": "fires",
+     "old": "    ctx = _digest(wire, key, rdata, time, request_mac, ctx, multi)\n    mac = ctx.sign()\n    tsig = rdata.replace(time_signed=time, mac=mac)",
+     "new": "    if rdata.error == 18 and not rdata.other:\n        rdata = rdata.replace(other=struct.pack(\"!HI\", time >> 32, time & 0xFFFFFFFF))\n    ctx = _digest(wire, key, rdata, time, request_mac, ctx, multi)\n    mac = ctx.sign()\n    tsig = rdata.replace(time_signed=time, mac=mac)"},
     {"id": "c08-request-payload-stored-only-when-defaulted", "rule": "R-08.8", "file": "dns/message.py", "expect": "fires",
      "old": "                request_payload = payload\n            self.request_payload = request_payload", "new": "                request_payload = payload\n                self.request_payload = request_payload"},
     {"id": "c08-tsig-reserve-under-want-sign", "rule": "R-08.8", "file": "dns/message.py", "expect": "fires",
